@@ -38,8 +38,13 @@ class ModelMixin(Generic[T]):
         """
         if session is None:
             session = db.session
-        return cast(Optional[T], session.execute(
-            db.select(cls).filter_by(**kwargs)).scalar_one_or_none())
+        try:
+            return cast(Optional[T], session.execute(
+                db.select(cls).filter_by(**kwargs)).scalar_one_or_none())
+        except OverflowError:
+            # an integer that does not fit into a database INTEGER column
+            # (e.g. a primary key taken from a URL) can not match any row
+            return None
 
     @classmethod
     def search(clz, max_items: int | None = None,
